@@ -274,7 +274,7 @@ def mutate_text(r, text, k):
         elif m == 11:  # an odd identifier in the name field
             f = ln.split("\t")
             if len(f) > 1:
-                f[1] = gen.choice(r, ["²", "٣", "５", "*", "1", "A+", "", "00", "a b", "é"])
+                f[1] = gen.choice(r, ["²", "٣", "５", "*", "1", "A+", "", "00", "a b", "é", "9" * 5000])
             ln = "\t".join(f)
         else:  # replace a whole field by special content
             f = ln.split("\t")
@@ -282,7 +282,7 @@ def mutate_text(r, text, k):
             f[p] = gen.choice(r, ["*", "", "$", "0$", "-1", "+", ",", "1,2", "*,*", "a+,", ",+", "{", "[1,", "1e999", "0M",
                                   "99999999999999999999", "A+ B-", "x" * 300, "５", "²", "٣", "xx:i:1", "co:Z:GFAPY_virtual_line",
                                   "1M", "1M,1M,1M,1M", "*,*,*", "xx:J:" + "[" * 1500 + "]" * 1500, "xx:J:" + "{\"a\":" * 1200 + "1" + "}" * 1200,
-                                  "A+,B+,A+,B+,A+"])
+                                  "A+,B+,A+,B+,A+", "9" * 5000, "9" * 5000 + "M", "1M" + "7" * 4400 + "D", "-" + "9" * 4500])
             ln = "\t".join(f)
         if i < len(lines):
             lines[i] = ln
